@@ -1,14 +1,32 @@
+// c08: correspondence + monitors for the two parts of C08 that are not ledger histories (those are run by harness/c04
+// with VERIF_PROP=C08):
+//
+//	part A  histories of RegisterCoin / RegisterERC20 / ToggleTokenConversion / UpdateDenomAlias and the removal of a pair
+//	        whose contract was destroyed, on the REAL erc20 keeper; after every operation the raw erc20 store indexes
+//	        (0x01 pairs, 0x02 by denom, 0x03 by contract, 0x05 alias) and the bank-metadata aliases are dumped and
+//	        (a) compared with the model (Cases_C08idx.v), (b) checked for mutual consistency by the monitor;
+//	part B  one REAL EVM transaction of a hand-assembled contract C that mixes direct calls to a module-owned FIP20
+//	        (transfer, approve, balanceOf) with calls to the crosschain precompile (crossChain: running EVM;
+//	        bridgeCall: keeper-level nested EVM); the token's books after the transaction are compared with the
+//	        two-level-store model (Cases_C08mix.v) and checked by the monitor.
 package main
 
 import (
+	"bytes"
+	"encoding/json"
+	"errors"
 	"fmt"
 	"math/big"
+	"os"
+	"sort"
+	"strings"
 
 	sdkmath "cosmossdk.io/math"
 	sdk "github.com/cosmos/cosmos-sdk/types"
 	"github.com/ethereum/go-ethereum/common"
 
 	"github.com/functionx/fx-core/v8/contract"
+	fxtypes "github.com/functionx/fx-core/v8/types"
 	"github.com/functionx/fx-core/v8/x/crosschain/precompile"
 	crosschaintypes "github.com/functionx/fx-core/v8/x/crosschain/types"
 	erc20types "github.com/functionx/fx-core/v8/x/erc20/types"
@@ -16,68 +34,711 @@ import (
 	"fxverif/lib"
 )
 
+var fip20 = contract.GetFIP20().ABI
+
 func main() {
-	c := lib.NewChain(1, 1, nil)
+	seed := lib.Seed()
+	mode := os.Getenv("VERIF_MODE")
+	rep := lib.NewReport("C08")
+	rep.Rule = "part A: one case = a history of 8-16 register/toggle/alias/removal operations over 3 base denoms, 5 alias denoms and the contracts they create (~30% deliberately conflicting); part B: one case = one EVM transaction of 1-5 instructions (transfer, approve, balanceOf, crossChain, bridgeCall) by a contract holding the token, amounts drawn around its balance; non-trivial = at least 2 accepted operations (A) / a successful transaction containing a precompile call (B); distinct by operation sequence"
+	c := lib.NewChain(seed, 1, nil)
 	x := c.X("eth")
 	x.SetupOracles([]int64{10000, 10000, 10000})
 	lib.Must(c.NextBlock())
-	mod, err := c.SetupModuleOwned("USDT", 1, []string{"eth"}, "")
-	lib.Must(err)
-	u := lib.EthKey(1, "user", 0)
-	c.EnsureAccount(c.Ctx, u.Acc())
-	// bridge in 1000 usdt to u via eth
-	n := uint64(0)
-	claim := func(mk func(n uint64) crosschaintypes.ExternalClaim) error {
-		n++
-		nn := n
-		for _, e := range x.ObserveAll(func() crosschaintypes.ExternalClaim { return mk(nn) }) {
-			if e != nil {
-				fmt.Println("claim err", e)
+
+	if mode == "replay" {
+		replay(c, x, rep)
+		return
+	}
+	nA, nB := 60, 150
+	if lib.Tier() == "thorough" || mode == "search" {
+		nA, nB = 600, 1500
+	}
+	if v := lib.EnvInt("VERIF_N", 0); v > 0 {
+		nA, nB = int(v), int(v)*2
+	}
+	var itemsA, itemsB []string
+	for i := 0; i < nA; i++ {
+		itemsA = append(itemsA, indexHistory(c, seed*1_000_003+int64(i), rep))
+	}
+	m := setupMixed(c, x)
+	// the machine-checked witness of P_Erc20.v first, then generated programs
+	itemsB = append(itemsB, m.run(&MixCase{N: 100, Prog: []MInstr{{K: "Transfer", X: 30}, {K: "BridgeCall", X: 50}}, Seed: -1}, rep))
+	for i := 0; i < nB; i++ {
+		r := lib.NewRand(seed*2_000_003 + int64(i))
+		itemsB = append(itemsB, m.run(genMix(r, i, seed*2_000_003+int64(i)), rep))
+	}
+	if mode != "search" {
+		lib.WriteCases("Cases_C08idx.v", []string{"model.M_Erc20", "model.M_Erc20Corr"}, "icase", itemsA, "index_mismatch")
+		lib.WriteCases("Cases_C08mix.v", []string{"model.M_Erc20", "model.M_Erc20Corr"}, "mcase", itemsB, "mixed_mismatch")
+	}
+	rep.Write()
+}
+
+// ======================================================================================================
+// part A: index histories
+
+type IOp struct {
+	K       string   `json:"k"`
+	Base    int      `json:"base,omitempty"`    // index into bases
+	Aliases []int    `json:"aliases,omitempty"` // indexes into the denom universe
+	ByC     bool     `json:"by_contract,omitempty"`
+	Key     int      `json:"key,omitempty"` // denom id or contract id
+	Denom   int      `json:"denom,omitempty"`
+	Alias   int      `json:"alias,omitempty"`
+	Owner   int      `json:"owner,omitempty"`
+	CID     int      `json:"contract_id,omitempty"`
+	OK      bool     `json:"ok"`
+	Err     string   `json:"err,omitempty"`
+	Dump    []string `json:"-"`
+}
+
+type IHistory struct {
+	Seed int64 `json:"hist_seed"`
+	Ops  []IOp `json:"ops"`
+}
+
+// universe: denoms 10,20,30 are bases (symbols TKA TKB TKC); 11..15 are alias denoms
+var denomName = map[int]string{10: "tka", 20: "tkb", 30: "tkc", 11: "alpha", 12: "bravo", 13: "charlie", 14: "delta", 15: "echo"}
+var denomIDs = []int{10, 11, 12, 13, 14, 15, 20, 30}
+var baseIDs = []int{10, 20, 30}
+var aliasIDs = []int{11, 12, 13, 14, 15}
+
+func denomID(s string) (int, bool) {
+	for k, v := range denomName {
+		if v == s {
+			return k, true
+		}
+	}
+	return 0, false
+}
+
+type idxWorld struct {
+	c       *lib.Chain
+	contrID map[common.Address]int
+	contrs  []common.Address // id 500+i
+	user    lib.Key
+}
+
+func (w *idxWorld) cid(a common.Address) int {
+	if id, ok := w.contrID[a]; ok {
+		return id
+	}
+	id := 500 + len(w.contrs)
+	w.contrID[a] = id
+	w.contrs = append(w.contrs, a)
+	return id
+}
+
+func zi(n int) string { return lib.Z(int64(n)) }
+func ints(l []int) string {
+	var s []string
+	for _, v := range l {
+		s = append(s, zi(v))
+	}
+	return lib.List(s)
+}
+
+func (o IOp) Coq() string {
+	switch o.K {
+	case "RegisterCoin":
+		return fmt.Sprintf("(IRegisterCoin %d %s %d)", o.Base, ints(o.Aliases), o.CID)
+	case "RegisterERC20":
+		return fmt.Sprintf("(IRegisterERC20 %d %d %s)", o.CID, o.Base, ints(o.Aliases))
+	case "Toggle":
+		return fmt.Sprintf("(IToggle %s %d)", lib.Bool(o.ByC), o.Key)
+	case "UpdateAlias":
+		return fmt.Sprintf("(IUpdateAlias %d %d)", o.Denom, o.Alias)
+	case "Remove":
+		return fmt.Sprintf("(IRemove %d)", o.Denom)
+	}
+	panic(o.K)
+}
+
+// dump reads the four raw erc20 indexes and the bank metadata, projected on the universe, in the model's order.
+func (w *idxWorld) dump(ctx sdk.Context) (string, *idxDump) {
+	c := w.c
+	d := &idxDump{byDenom: map[int][2]int{}, byErc: map[int][2]int{}, alias: map[int]int{}, meta: map[int][]int{}, pairs: map[[2]int][2]bool{}}
+	idOf := map[string][2]int{} // raw pair id -> (contract, denom)
+	for _, kv := range c.DumpPrefix(ctx, erc20types.StoreKey, erc20types.KeyPrefixTokenPair) {
+		var p erc20types.TokenPair
+		c.App.AppCodec().MustUnmarshal(kv.V, &p)
+		dn, ok := denomID(p.Denom)
+		if !ok {
+			continue // FX / WFX: outside the universe
+		}
+		k := [2]int{w.cid(p.GetERC20Contract()), dn}
+		d.pairs[k] = [2]bool{p.Enabled, p.IsNativeCoin()}
+		idOf[string(kv.K[1:])] = k
+		if !bytes.Equal(kv.K[1:], p.GetID()) {
+			d.bad = append(d.bad, "pair stored under a key that is not its id: "+p.Denom)
+		}
+	}
+	for _, kv := range c.DumpPrefix(ctx, erc20types.StoreKey, erc20types.KeyPrefixTokenPairByDenom) {
+		dn, ok := denomID(string(kv.K[1:]))
+		if !ok {
+			continue
+		}
+		id, known := idOf[string(kv.V)]
+		if !known {
+			id = [2]int{-1, -1}
+			d.bad = append(d.bad, "by-denom entry points to a missing pair: "+string(kv.K[1:]))
+		}
+		d.byDenom[dn] = id
+	}
+	for _, kv := range c.DumpPrefix(ctx, erc20types.StoreKey, erc20types.KeyPrefixTokenPairByERC20) {
+		addr := common.BytesToAddress(kv.K[1:])
+		id, known := idOf[string(kv.V)]
+		if !known {
+			if _, isU := w.contrID[addr]; !isU {
+				continue // WFX
+			}
+			id = [2]int{-1, -1}
+			d.bad = append(d.bad, "by-contract entry points to a missing pair: "+addr.Hex())
+		}
+		d.byErc[w.cid(addr)] = id
+	}
+	for _, kv := range c.DumpPrefix(ctx, erc20types.StoreKey, erc20types.KeyPrefixAliasDenom) {
+		a, ok := denomID(string(kv.K[1:]))
+		if !ok {
+			continue
+		}
+		b, ok2 := denomID(string(kv.V))
+		if !ok2 {
+			b = -1
+		}
+		d.alias[a] = b
+	}
+	for _, dn := range denomIDs {
+		if md, ok := c.App.BankKeeper.GetDenomMetaData(ctx, denomName[dn]); ok {
+			var al []int
+			if len(md.DenomUnits) > 0 {
+				for _, a := range md.DenomUnits[0].Aliases {
+					id, ok := denomID(a)
+					if !ok {
+						id = -1
+					}
+					al = append(al, id)
+				}
+			}
+			d.meta[dn] = al
+		}
+	}
+	// render in the model's order: pairs contract-major over E x D; the others over D (resp. E) ascending
+	E := make([]int, 0, len(w.contrs))
+	for i := range w.contrs {
+		E = append(E, 500+i)
+	}
+	var ps, bd, be, al, me []string
+	for _, e := range E {
+		for _, dn := range denomIDs {
+			if v, ok := d.pairs[[2]int{e, dn}]; ok {
+				ps = append(ps, fmt.Sprintf("(%d, %d, %s, %s)", e, dn, lib.Bool(v[0]), lib.Bool(v[1])))
 			}
 		}
-		return c.Try(func(ctx sdk.Context) error { return x.Keeper.ExecuteClaim(ctx, nn) })
 	}
-	lib.Must(claim(func(n uint64) crosschaintypes.ExternalClaim {
-		return &crosschaintypes.MsgSendToFxClaim{EventNonce: n, BlockHeight: 1001, TokenContract: mod.Alias("eth").Contract, Amount: sdkmath.NewInt(1000), Sender: lib.ExternalAccount(1, "eth", 0), Receiver: u.Acc().String()}
-	}))
-	C := common.HexToAddress("0xC0000000000000000000000000000000000000C1")
-	X := common.HexToAddress("0xD0000000000000000000000000000000000000D1")
-	fip := contract.GetFIP20().ABI
-	a, b := int64(30), int64(50)
-	transfer, _ := fip.Pack("transfer", X, big.NewInt(a))
-	bc, err := precompile.NewBridgeCallMethod(nil).PackInput(crosschaintypes.BridgeCallArgs{
-		DstChain: "eth", Refund: C, Tokens: []common.Address{mod.ERC20}, Amounts: []*big.Int{big.NewInt(b)},
-		To: common.HexToAddress(lib.ExternalAccount(1, "eth", 5)), Data: []byte{}, Value: big.NewInt(0), Memo: []byte{},
-	})
+	for _, dn := range denomIDs {
+		if v, ok := d.byDenom[dn]; ok {
+			bd = append(bd, fmt.Sprintf("(%d, (%s, %s))", dn, zi(v[0]), zi(v[1])))
+		}
+		if v, ok := d.alias[dn]; ok {
+			al = append(al, fmt.Sprintf("(%d, %s)", dn, zi(v)))
+		}
+		if v, ok := d.meta[dn]; ok {
+			me = append(me, fmt.Sprintf("(%d, %s)", dn, ints(v)))
+		}
+	}
+	for _, e := range E {
+		if v, ok := d.byErc[e]; ok {
+			be = append(be, fmt.Sprintf("(%d, (%s, %s))", e, zi(v[0]), zi(v[1])))
+		}
+	}
+	return fmt.Sprintf("(mk_idump %s %s %s %s %s)", lib.List(ps), lib.List(bd), lib.List(be), lib.List(al), lib.List(me)), d
+}
+
+type idxDump struct {
+	pairs   map[[2]int][2]bool
+	byDenom map[int][2]int
+	byErc   map[int][2]int
+	alias   map[int]int
+	meta    map[int][]int
+	bad     []string
+}
+
+// monitor: the indexes describe the same set of pairs; alias index and bank metadata agree for registered denoms
+func (d *idxDump) check() []string {
+	out := append([]string{}, d.bad...)
+	for k := range d.pairs {
+		if v, ok := d.byDenom[k[1]]; !ok || v != k {
+			out = append(out, fmt.Sprintf("pair (%d,%d) is not reachable through the denom index", k[0], k[1]))
+		}
+		if v, ok := d.byErc[k[0]]; !ok || v != k {
+			out = append(out, fmt.Sprintf("pair (%d,%d) is not reachable through the contract index", k[0], k[1]))
+		}
+	}
+	for dn, id := range d.byDenom {
+		if _, ok := d.pairs[id]; !ok || id[1] != dn {
+			out = append(out, fmt.Sprintf("denom index entry %d -> (%d,%d) has no matching pair", dn, id[0], id[1]))
+		}
+	}
+	for e, id := range d.byErc {
+		if _, ok := d.pairs[id]; !ok || id[0] != e {
+			out = append(out, fmt.Sprintf("contract index entry %d -> (%d,%d) has no matching pair", e, id[0], id[1]))
+		}
+	}
+	for a, b := range d.alias {
+		if _, ok := d.byDenom[b]; !ok {
+			out = append(out, fmt.Sprintf("alias %d points to denom %d which is not registered", a, b))
+		}
+		if _, ok := d.byDenom[a]; ok {
+			out = append(out, fmt.Sprintf("alias %d is itself a registered denom", a))
+		}
+		found := false
+		for _, m := range d.meta[b] {
+			found = found || m == a
+		}
+		if !found {
+			out = append(out, fmt.Sprintf("alias %d -> %d is missing from the bank metadata of %d", a, b, b))
+		}
+	}
+	for dn := range d.byDenom {
+		for _, a := range d.meta[dn] {
+			if d.alias[a] != dn {
+				out = append(out, fmt.Sprintf("bank metadata of registered denom %d lists alias %d which the alias index does not map to it", dn, a))
+			}
+		}
+	}
+	sort.Strings(out)
+	return out
+}
+
+func indexHistory(c *lib.Chain, hseed int64, rep *lib.Report) string {
+	r := lib.NewRand(hseed)
+	return execIndex(c, &IHistory{Seed: hseed}, r, nil, rep)
+}
+
+func execIndex(c *lib.Chain, h *IHistory, r *lib.Rand, fixed []IOp, rep *lib.Report) string {
+	base := c.Ctx
+	branch, _ := base.CacheContext()
+	c.Ctx = branch
+	defer func() { c.Ctx = base }()
+	w := &idxWorld{c: c, contrID: map[common.Address]int{}, user: lib.EthKey(c.Seed, "idxuser", 0)}
+	c.EnsureAccount(c.Ctx, w.user.Acc())
+	n := 8 + r.Pick(9)
+	if fixed != nil {
+		n = len(fixed)
+	}
+	var steps []string
+	accepted := 0
+	registered := func() []int {
+		var out []int
+		for _, b := range baseIDs {
+			if c.App.Erc20Keeper.IsDenomRegistered(c.Ctx, denomName[b]) {
+				out = append(out, b)
+			}
+		}
+		return out
+	}
+	pickAliases := func() []int {
+		var al []int
+		for _, a := range aliasIDs {
+			if r.Chance(30) {
+				al = append(al, a)
+			}
+		}
+		if r.Chance(6) && len(al) > 0 {
+			al = append(al, al[0]) // duplicate
+		}
+		if r.Chance(6) {
+			al = append(al, baseIDs[r.Pick(3)]) // a base denom as alias
+		}
+		return al
+	}
+	for i := 0; i < n; i++ {
+		var o IOp
+		if fixed != nil {
+			o = fixed[i]
+		} else {
+			regs := registered()
+			switch k := r.Pick(10); {
+			case k < 3 || len(regs) == 0:
+				o = IOp{K: "RegisterCoin", Base: baseIDs[r.Pick(3)], Aliases: pickAliases()}
+				if r.Chance(40) {
+					o.K = "RegisterERC20"
+				}
+			case k < 5:
+				o = IOp{K: "Toggle", Key: regs[r.Pick(len(regs))]}
+				if r.Chance(40) && len(w.contrs) > 0 {
+					o.ByC, o.Key = true, 500+r.Pick(len(w.contrs))
+				}
+			case k < 8:
+				dn := regs[r.Pick(len(regs))]
+				if r.Chance(10) {
+					dn = denomIDs[r.Pick(len(denomIDs))]
+				}
+				o = IOp{K: "UpdateAlias", Denom: dn, Alias: aliasIDs[r.Pick(len(aliasIDs))]}
+				if r.Chance(8) {
+					o.Alias = baseIDs[r.Pick(3)]
+				}
+			default:
+				o = IOp{K: "Remove", Denom: regs[r.Pick(len(regs))]}
+			}
+		}
+		err := w.exec(&o)
+		o.OK = err == nil
+		if err != nil {
+			o.Err = err.Error()
+			if len(o.Err) > 120 {
+				o.Err = o.Err[:120]
+			}
+		} else {
+			accepted++
+		}
+		dump, d := w.dump(c.Ctx)
+		steps = append(steps, fmt.Sprintf("(%s, %s, %s)", o.Coq(), lib.Bool(o.OK), dump))
+		h.Ops = append(h.Ops, o)
+		rep.Count("idx:" + o.K + ":" + map[bool]string{true: "ok", false: "rej"}[o.OK])
+		for _, bad := range d.check() {
+			rep.Fail(lib.Failure{Kind: "monitor", What: "erc20 indexes inconsistent after " + o.Coq() + ": " + bad,
+				Sig: "C08:indexes:" + o.K, Replay: map[string]interface{}{"part": "index", "history": h}})
+			break
+		}
+	}
+	key := ""
+	for _, o := range h.Ops {
+		key += o.Coq() + map[bool]string{true: "+", false: "-"}[o.OK]
+	}
+	rep.Case("A:"+key, accepted >= 2)
+	E := make([]int, 0, len(w.contrs))
+	for i := range w.contrs {
+		E = append(E, 500+i)
+	}
+	return fmt.Sprintf("mk_icase %s %s\n   %s", ints(denomIDs), ints(E), lib.List(steps))
+}
+
+func names(ids []int) []string {
+	var out []string
+	for _, i := range ids {
+		out = append(out, denomName[i])
+	}
+	return out
+}
+
+func (w *idxWorld) exec(o *IOp) error {
+	c := w.c
+	switch o.K {
+	case "RegisterCoin":
+		sym := strings.ToUpper(denomName[o.Base])
+		md := fxtypes.GetCrossChainMetadataManyToOne(sym+" token", sym, 18, names(o.Aliases)...)
+		msg := &erc20types.MsgRegisterCoin{Authority: lib.GovAuthority(), Metadata: md}
+		o.CID = 500 + len(w.contrs) // the id the new contract will get if the registration goes through
+		if err := msg.ValidateBasic(); err != nil {
+			return err
+		}
+		return c.Try(func(ctx sdk.Context) error {
+			res, err := c.App.Erc20Keeper.RegisterCoin(ctx, msg)
+			if err == nil {
+				o.CID = w.cid(res.Pair.GetERC20Contract())
+			}
+			return err
+		})
+	case "RegisterERC20":
+		sym := strings.ToUpper(denomName[o.Base])
+		owner := lib.EthKey(c.Seed, "idxowner", len(w.contrs))
+		addr, err := c.DeployFIP20(owner, sym+" token", sym)
+		if err != nil {
+			return err
+		}
+		o.CID = w.cid(addr)
+		msg := &erc20types.MsgRegisterERC20{Authority: lib.GovAuthority(), Erc20Address: addr.Hex(), Aliases: names(o.Aliases)}
+		if err := msg.ValidateBasic(); err != nil {
+			return err
+		}
+		return c.Try(func(ctx sdk.Context) error {
+			_, err := c.App.Erc20Keeper.RegisterERC20(ctx, msg)
+			return err
+		})
+	case "Toggle":
+		tok := denomName[o.Key]
+		if o.ByC {
+			if o.Key-500 >= len(w.contrs) {
+				return errors.New("unknown contract")
+			}
+			tok = w.contrs[o.Key-500].Hex()
+		}
+		return c.Try(func(ctx sdk.Context) error {
+			_, err := c.App.Erc20Keeper.ToggleTokenConversion(ctx, &erc20types.MsgToggleTokenConversion{Authority: lib.GovAuthority(), Token: tok})
+			return err
+		})
+	case "UpdateAlias":
+		return c.Try(func(ctx sdk.Context) error {
+			msg := &erc20types.MsgUpdateDenomAlias{Authority: lib.GovAuthority(), Denom: denomName[o.Denom], Alias: denomName[o.Alias]}
+			if err := msg.ValidateBasic(); err != nil {
+				return err
+			}
+			_, err := c.App.Erc20Keeper.UpdateDenomAlias(ctx, msg)
+			return err
+		})
+	case "Remove":
+		// the pair's contract self-destructs (account deleted at the end of that EVM transaction); the next conversion
+		// attempt removes the pair and returns nil to persist the removal
+		pair, ok := c.App.Erc20Keeper.GetTokenPair(c.Ctx, denomName[o.Denom])
+		if !ok {
+			return errors.New("not registered")
+		}
+		return c.Try(func(ctx sdk.Context) error {
+			if err := c.App.EvmKeeper.DeleteAccount(ctx, pair.GetERC20Contract()); err != nil {
+				return err
+			}
+			_, err := c.App.Erc20Keeper.ConvertCoin(ctx, &erc20types.MsgConvertCoin{Coin: sdk.NewCoin(pair.Denom, sdkmath.NewInt(1)),
+				Receiver: w.user.Hex().Hex(), Sender: w.user.Acc().String()})
+			if err != nil {
+				return err
+			}
+			if _, still := c.App.Erc20Keeper.GetTokenPair(ctx, pair.Denom); still {
+				return errors.New("pair not removed")
+			}
+			return nil
+		})
+	}
+	panic(o.K)
+}
+
+// ======================================================================================================
+// part B: mixed EVM transactions
+
+type MInstr struct {
+	K string `json:"k"` // Transfer Approve BalanceOfC BalanceOfX CrossChain BridgeCall
+	X int64  `json:"x,omitempty"`
+}
+
+type MixCase struct {
+	Seed int64    `json:"prog_seed"`
+	N    int64    `json:"n"`
+	Prog []MInstr `json:"prog"`
+	OK   bool     `json:"ok"`
+	Obs  []string `json:"obs,omitempty"`
+}
+
+type mixWorld struct {
+	c    *lib.Chain
+	x    *lib.XChain
+	tok  *lib.Token
+	u    lib.Key
+	C, X common.Address
+}
+
+func setupMixed(c *lib.Chain, x *lib.XChain) *mixWorld {
+	tok, err := c.SetupModuleOwned("USDM", 7, []string{"eth"}, "")
 	lib.Must(err)
-	for variant := 0; variant < 3; variant++ {
-		asm := &lib.Asm{}
-		switch variant {
-		case 0: // transfer then bridgeCall
-			asm.Call(lib.CALL, mod.ERC20, 0, nil, transfer).RequireSuccess()
-			asm.Call(lib.CALL, lib.CrosschainPrecompile, 0, nil, bc).RequireSuccess()
-		case 1: // bridgeCall then transfer
-			asm.Call(lib.CALL, lib.CrosschainPrecompile, 0, nil, bc).RequireSuccess()
-			asm.Call(lib.CALL, mod.ERC20, 0, nil, transfer).RequireSuccess()
-		case 2: // bridgeCall only
-			asm.Call(lib.CALL, lib.CrosschainPrecompile, 0, nil, bc).RequireSuccess()
-		}
-		asm.Stop()
-		cctx, _ := c.Ctx.CacheContext()
-		c.InstallCode(cctx, C, asm.B)
-		c.EnsureAccount(cctx, C.Bytes())
-		// give C 100 USDT erc20
-		_, err := c.App.Erc20Keeper.ConvertCoin(cctx, &erc20types.MsgConvertCoin{Coin: lib.Coin("usdt", 100), Receiver: C.Hex(), Sender: u.Acc().String()})
-		lib.Must(err)
-		show := func(tag string) {
-			fmt.Printf("%s: total=%s bal[C]=%s bal[X]=%s | escrow(erc20 module usdt)=%s supply(usdt)=%s coin[C]=%s ethmod(alias)=%s\n", tag,
-				c.ERC20TotalSupply(cctx, mod.ERC20), c.ERC20BalanceOf(cctx, mod.ERC20, C), c.ERC20BalanceOf(cctx, mod.ERC20, X),
-				c.Bal(cctx, lib.ModuleAcc("erc20"), "usdt"), c.Supply(cctx, "usdt"), c.Bal(cctx, C.Bytes(), "usdt"), c.Bal(cctx, lib.ModuleAcc("eth"), mod.Alias("eth").Denom))
-		}
-		show(fmt.Sprintf("variant %d before", variant))
-		res := c.EvmCall(cctx, u.Hex(), &C, nil, 5_000_000, nil)
-		fmt.Println("  result: failed", res.Failed, res.VmError, "err", res.Err, "gas", res.GasUsed)
-		show(fmt.Sprintf("variant %d after ", variant))
-		x.Keeper.IterateOutgoingBridgeCalls(cctx, func(o *crosschaintypes.OutgoingBridgeCall) bool { fmt.Println("  outgoing", o.Nonce, o.Tokens); return false })
+	u := lib.EthKey(c.Seed, "mixuser", 0)
+	c.EnsureAccount(c.Ctx, u.Acc())
+	// bridge in: the eth module now holds the bridge denom, u holds the coins, an external height is observed
+	n := uint64(1)
+	for _, e := range x.ObserveAll(func() crosschaintypes.ExternalClaim {
+		return &crosschaintypes.MsgSendToFxClaim{EventNonce: n, BlockHeight: 1001, TokenContract: tok.Alias("eth").Contract, Amount: sdkmath.NewInt(1_000_000),
+			Sender: lib.ExternalAccount(c.Seed, "eth", 0), Receiver: u.Acc().String()}
+	}) {
+		_ = e
 	}
+	lib.Must(c.Try(func(ctx sdk.Context) error { return x.Keeper.ExecuteClaim(ctx, n) }))
+	return &mixWorld{c: c, x: x, tok: tok, u: u,
+		C: common.HexToAddress("0xC0000000000000000000000000000000000000c8"), X: common.HexToAddress("0xD0000000000000000000000000000000000000d1")}
+}
+
+func (i MInstr) Coq() string {
+	switch i.K {
+	case "Transfer":
+		return fmt.Sprintf("MTransfer 300 %d", i.X)
+	case "Approve":
+		return fmt.Sprintf("MApprove 24 %d", i.X)
+	case "BalanceOfC":
+		return "MBalanceOf 200"
+	case "BalanceOfX":
+		return "MBalanceOf 300"
+	case "CrossChain":
+		return fmt.Sprintf("MCrossChain %d", i.X)
+	case "BridgeCall":
+		return fmt.Sprintf("MBridgeCall %d", i.X)
+	}
+	panic(i.K)
+}
+
+func genMix(r *lib.Rand, i int, seed int64) *MixCase {
+	n := int64(100 + r.Intn(900))
+	mc := &MixCase{Seed: seed, N: n}
+	mode := i % 4 // 0,1: anything; 2: running EVM only; 3: bridge calls first
+	k := 1 + r.Pick(5)
+	amt := func() int64 {
+		if r.Chance(8) {
+			return n + 1 + int64(r.Intn(50))
+		}
+		return 1 + int64(r.Intn(int(n/2)))
+	}
+	var front, rest []MInstr
+	for j := 0; j < k; j++ {
+		var in MInstr
+		switch r.Pick(7) {
+		case 0, 1:
+			in = MInstr{K: "Transfer", X: amt()}
+		case 2:
+			in = MInstr{K: "BalanceOfC"}
+			if r.Chance(40) {
+				in.K = "BalanceOfX"
+			}
+		case 3, 4:
+			a := 2 + amt()
+			rest = append(rest, MInstr{K: "Approve", X: a + int64(r.Pick(3)) - 1})
+			in = MInstr{K: "CrossChain", X: a}
+		default:
+			in = MInstr{K: "BridgeCall", X: amt()}
+		}
+		if in.K == "BridgeCall" && mode == 2 {
+			in = MInstr{K: "Transfer", X: amt()}
+		}
+		if in.K == "BridgeCall" && mode == 3 {
+			front = append(front, in)
+			continue
+		}
+		rest = append(rest, in)
+	}
+	mc.Prog = append(front, rest...)
+	return mc
+}
+
+func (m *mixWorld) run(mc *MixCase, rep *lib.Report) string {
+	c := m.c
+	base := c.Ctx
+	branch, _ := base.CacheContext()
+	c.Ctx = branch
+	defer func() { c.Ctx = base }()
+	ctx := c.Ctx
+	tokAddr := m.tok.ERC20
+	// assemble the contract
+	asm := &lib.Asm{}
+	for _, in := range mc.Prog {
+		switch in.K {
+		case "Transfer":
+			d, _ := fip20.Pack("transfer", m.X, big.NewInt(in.X))
+			asm.Call(lib.CALL, tokAddr, 0, nil, d).RequireSuccess()
+		case "Approve":
+			d, _ := fip20.Pack("approve", lib.CrosschainPrecompile, big.NewInt(in.X))
+			asm.Call(lib.CALL, tokAddr, 0, nil, d).RequireSuccess()
+		case "BalanceOfC", "BalanceOfX":
+			a := m.C
+			if in.K == "BalanceOfX" {
+				a = m.X
+			}
+			d, _ := fip20.Pack("balanceOf", a)
+			asm.Call(lib.STATICCALL, tokAddr, 0, nil, d).RequireSuccess()
+		case "CrossChain":
+			d, err := precompile.NewCrossChainMethod(nil).PackInput(crosschaintypes.CrossChainArgs{Token: tokAddr, Receipt: lib.ExternalAccount(c.Seed, "eth", 1),
+				Amount: big.NewInt(in.X - 1), Fee: big.NewInt(1), Target: fxtypes.MustStrToByte32("eth"), Memo: ""})
+			lib.Must(err)
+			asm.Call(lib.CALL, lib.CrosschainPrecompile, 0, nil, d).RequireSuccess()
+		case "BridgeCall":
+			d, err := precompile.NewBridgeCallMethod(nil).PackInput(crosschaintypes.BridgeCallArgs{DstChain: "eth", Refund: m.C, Tokens: []common.Address{tokAddr},
+				Amounts: []*big.Int{big.NewInt(in.X)}, To: common.HexToAddress("0x00000000000000000000000000000000000000e1"), Data: []byte{}, Value: big.NewInt(0), Memo: []byte{}})
+			lib.Must(err)
+			asm.Call(lib.CALL, lib.CrosschainPrecompile, 0, nil, d).RequireSuccess()
+		}
+	}
+	asm.Stop()
+	c.InstallCode(ctx, m.C, asm.B)
+	c.EnsureAccount(ctx, m.C.Bytes())
+	_, err := c.App.Erc20Keeper.ConvertCoin(ctx, &erc20types.MsgConvertCoin{Coin: lib.Coin(m.tok.Base, mc.N), Receiver: m.C.Hex(), Sender: m.u.Acc().String()})
+	lib.Must(err)
+	res := c.EvmCall(ctx, m.u.Hex(), &m.C, nil, 8_000_000, nil)
+	mc.OK = res.Err == nil && !res.Failed
+	// observables
+	total := c.ERC20TotalSupply(ctx, tokAddr)
+	bC := c.ERC20BalanceOf(ctx, tokAddr, m.C)
+	bX := c.ERC20BalanceOf(ctx, tokAddr, m.X)
+	bM := c.ERC20BalanceOf(ctx, tokAddr, lib.ModuleHex(erc20types.ModuleName))
+	esc := c.Bal(ctx, lib.ModuleAcc(erc20types.ModuleName), m.tok.Base)
+	out := new(big.Int)
+	for _, tx := range m.x.Keeper.GetUnbatchedTransactions(ctx) {
+		out.Add(out, tx.Token.Amount.BigInt())
+		out.Add(out, tx.Fee.Amount.BigInt())
+	}
+	m.x.Keeper.IterateOutgoingBridgeCalls(ctx, func(o *crosschaintypes.OutgoingBridgeCall) bool {
+		for _, t := range o.Tokens {
+			out.Add(out, t.Amount.BigInt())
+		}
+		return false
+	})
+	obs := []*big.Int{total, bC, bX, bM, esc, out}
+	var obsS, prog []string
+	for _, v := range obs {
+		obsS = append(obsS, lib.ZBig(v))
+		mc.Obs = append(mc.Obs, v.String())
+	}
+	hasPre, afterTouch, touched := false, false, false
+	for _, in := range mc.Prog {
+		prog = append(prog, in.Coq())
+		if in.K == "BridgeCall" {
+			hasPre = true
+			if touched {
+				afterTouch = true
+			}
+		} else {
+			touched = true // every other instruction reads or writes the token's storage through the outer StateDB
+			if in.K == "CrossChain" {
+				hasPre = true
+			}
+		}
+	}
+	rep.Case("B:"+strings.Join(prog, ";"), mc.OK && hasPre)
+	rep.Count("mix:" + map[bool]string{true: "ok", false: "reverted"}[mc.OK])
+	rep.Count(fmt.Sprintf("mix:len%d", len(mc.Prog)))
+	// monitor: the pair books after the transaction
+	sum := new(big.Int).Add(bC, bX)
+	sum.Add(sum, bM)
+	holdersPlus := new(big.Int).Add(sum, out) // what C, X hold plus what left through the bridge
+	_ = holdersPlus
+	if total.Cmp(esc) != 0 || sum.Cmp(total) != 0 {
+		pat := "unexplained"
+		if afterTouch && mc.OK {
+			pat = "bridgeCall-after-token-access"
+		}
+		rep.Fail(lib.Failure{Kind: "monitor",
+			What: fmt.Sprintf("mixed EVM transaction [%s] by a contract holding %d tokens: after it totalSupply=%s, escrow=%s, balances C=%s X=%s module=%s (sum %s), bridged out=%s — the books are unbalanced",
+				strings.Join(prog, "; "), mc.N, total, esc, bC, bX, bM, sum, out),
+			Sig: "C08:mixed-evm:" + pat, Replay: map[string]interface{}{"part": "mixed", "case": mc}})
+	}
+	return fmt.Sprintf("mk_mcase %d %s %s %s", mc.N, lib.List(prog), lib.Bool(mc.OK), lib.List(obsS))
+}
+
+// ======================================================================================================
+
+func replay(c *lib.Chain, x *lib.XChain, rep *lib.Report) {
+	b, err := os.ReadFile(os.Getenv("VERIF_REPLAY"))
+	lib.Must(err)
+	var doc struct {
+		Replay struct {
+			Part    string    `json:"part"`
+			History *IHistory `json:"history"`
+			Case    *MixCase  `json:"case"`
+		} `json:"replay"`
+	}
+	lib.Must(json.Unmarshal(b, &doc))
+	switch doc.Replay.Part {
+	case "index":
+		h := &IHistory{Seed: doc.Replay.History.Seed}
+		execIndex(c, h, lib.NewRand(h.Seed), doc.Replay.History.Ops, rep)
+		for _, o := range h.Ops {
+			fmt.Printf("%-50s ok=%v %s\n", o.Coq(), o.OK, o.Err)
+		}
+	case "mixed":
+		m := setupMixed(c, x)
+		mc := &MixCase{Seed: doc.Replay.Case.Seed, N: doc.Replay.Case.N, Prog: doc.Replay.Case.Prog}
+		fmt.Println(m.run(mc, rep))
+	}
+	for _, f := range rep.Failures {
+		fmt.Println("FAILURE:", f.Sig, "—", f.What)
+	}
+	if len(rep.Failures) == 0 {
+		fmt.Println("no monitor failure on replay")
+	}
+	rep.Write()
 }
